@@ -10,7 +10,7 @@ PMIN <= PG <= PMAX, QMIN <= QG <= QMAX (A-SOLVE: the interior point solver retur
         min_p_mw - delta <= res.p_mw <= max_p_mw + delta,   min_q_mvar - delta <= res.q_mvar <= max_q_mvar + delta
     (the box handed to the solver is exactly the declared box in the element's own sign convention);
   * setpoints: PG = sign * p_mw * scaling, QG = sign * q_mvar * scaling;
-  * gens: PG = p_mw * scaling, VG = vm_pu, limits min/max -/+ delta; non-controllable gens are fixed: PMIN/PMAX = p_mw -/+ delta and the
+  * gens: PG = p_mw * scaling, VG = vm_pu, limits min/max -/+ delta; non-controllable gens are fixed: PMIN/PMAX = p_mw * scaling -/+ delta and the
     bus voltage limits are vm_pu -/+ delta; ext_grids: VG = vm_pu, bus VM/VA = vm_pu / va_degree, voltage limits vm_pu -/+ delta.
 
 Added later: _check_gen_vm_limits (voltage range of gen buses = intersection of bus and gen limits, run_gen_vm; the pinned code wrote min_vm_pu
@@ -162,9 +162,10 @@ def run_gen(vc, modes):
             p.prove(f"{tag}:QMAX", G(ig.QMAX) == to_z(c["max_q_mvar"]) + d, meta=dict(part="gen"))
             if mode == "opf":
                 nc = z3.Not(to_z(c["controllable"]))
-                p.prove(f"{tag}:PMIN", G(ig.PMIN) == z3.If(nc, to_z(c["p_mw"]) - d, to_z(c["min_p_mw"]) - d), meta=dict(part="gen"),
-                        note="non-controllable gens are fixed at p_mw, controllable ones limited by min_p_mw")
-                p.prove(f"{tag}:PMAX", G(ig.PMAX) == z3.If(nc, to_z(c["p_mw"]) + d, to_z(c["max_p_mw"]) + d), meta=dict(part="gen"))
+                fixed = to_z(c["p_mw"]) * to_z(c["scaling"])     # the set point of the power flow (PG above), not the bare p_mw
+                p.prove(f"{tag}:PMIN", G(ig.PMIN) == z3.If(nc, fixed - d, to_z(c["min_p_mw"]) - d), meta=dict(part="gen"),
+                        note="non-controllable gens are fixed at their set point p_mw * scaling, controllable ones limited by min_p_mw")
+                p.prove(f"{tag}:PMAX", G(ig.PMAX) == z3.If(nc, fixed + d, to_z(c["max_p_mw"]) + d), meta=dict(part="gen"))
             else:
                 p.prove(f"{tag}:PMIN", G(ig.PMIN) == to_z(c["min_p_mw"]) - d, meta=dict(part="gen"))
                 p.prove(f"{tag}:PMAX", G(ig.PMAX) == to_z(c["max_p_mw"]) + d, meta=dict(part="gen"))
@@ -209,10 +210,13 @@ def _standins(vc):
         vc.native_standins = []
     vc.native_standins.append(dict(
         name="OPF results of a lossy dcline against the dcline model of the power flow",
-        bound="one 4-bus 110 kV network with a dcline, 5 combinations of loss_percent / loss_mw / direction of the set point; AC OPF, then a power "
+        bound="one 4-bus 110 kV network with a dcline, 7 combinations of loss_percent / loss_mw / direction of the set point / net.sn_mva; AC OPF, then a power "
               "flow with the dispatched dcline power: p_from_mw and p_to_mw must agree (_add_dcline_constraints builds a sparse matrix row by row "
-              "from slices of the gen index: outside the deductive fragment)",
-        script="from replaylib.opf_feasible import main_dcline\nmain_dcline()\n"))
+              "from slices of the gen index: outside the deductive fragment); voltage limits of two buses fused by a closed bus-bus switch; a "
+              "non-controllable gen with scaling 0.5 (OPF result against a power flow with the OPF dispatch)",
+        script="import sys\nfrom replaylib.opf_feasible import main_dcline, main_more\n"
+               "for f in (main_dcline, main_more):\n    try:\n        f()\n    except SystemExit as e:\n        if e.code:\n            raise\n",
+        timeout=900))
 
 
 def run_dc_flow_limits(vc):
@@ -313,6 +317,11 @@ def replay(ob, model, finding=None):
         return {"script": f"# replay of {ob.id}\nfrom replaylib.opf_feasible import main_gen_vm\nmain_gen_vm()\n",
                 "description": "AC OPF with two gens that declare their own voltage limits (one above its bus maximum, the other below its bus "
                                "minimum): converged voltages and the limits handed to the solver against the declared ranges"}
+    if ob.meta.get("part") == "gen":
+        return {"script": f"# replay of {ob.id}\nimport sys\nfrom replaylib.opf_feasible import main, main_more\n"
+                          "for f in (main, main_more):\n    try:\n        f()\n    except SystemExit as e:\n        if e.code:\n            raise\n",
+                "description": "AC OPF with controllable elements with asymmetric limits; a non-controllable gen with a scaling factor: results "
+                               "inside the declared limits and reproduced by a power flow with the OPF dispatch"}
     return {"script": f"# replay of {ob.id}\nfrom replaylib.opf_feasible import main\nmain()\n",
             "description": "AC OPF with controllable loads / storages / sgens / gens with asymmetric limits: results inside the declared limits and "
                            "reproduced by a power flow"}
